@@ -28,10 +28,28 @@ void dispatch_activate(dispatch_object_t dou)
 	__verif_event(K_ACTIVATE, 0, dou._do, 0, 0);
 }
 char H_ctxt;
+#ifdef H_BLOCK_VARIANT
+/* dispatch_after with a block: a plain block or a block object (dispatch_block_create*), possibly cancelled BEFORE it is scheduled: it is scheduled all the same - its
+ * (skipped) execution at the deadline is what completes it for dispatch_block_wait / dispatch_block_notify (C19) */
+struct Block_layout H_blk; _Bool H_blk_object, H_blk_cancelled; struct dispatch_block_private_data_s H_dbpd;
+#define H_HANDLER ((void *)&H_blk)
+#define H_IS_BLOCK 1
+#define H_CTXT_ARG ((void *)0)
+void dispatch_async(dispatch_queue_t q, dispatch_block_t b) { __verif_event(K_ASYNC_NOW, 0, q, (unsigned long long)(uintptr_t)&H_ctxt, (void *)b == (void *)&H_blk); }
+static inline dispatch_qos_t _dispatch_continuation_init(dispatch_continuation_t dc, dispatch_queue_class_t dqu, dispatch_block_t work, dispatch_block_flags_t flags, uintptr_t dc_flags)
+{ (void)dqu; (void)flags; dc->dc_flags = dc_flags | DC_FLAG_ALLOCATED | DC_FLAG_BLOCK; dc->dc_func = ((void *)work == (void *)&H_blk) ? h_fn : (dispatch_function_t)0; dc->dc_ctxt = (void *)&H_ctxt; return 0; }
+/* what a version that peeks at the block object could call */
+static inline dispatch_block_private_data_t _dispatch_block_get_data(const dispatch_block_t db) { (void)db; return H_blk_object ? &H_dbpd : (dispatch_block_private_data_t)0; }
+long dispatch_block_testcancel(dispatch_block_t db) { (void)db; return H_blk_object && H_blk_cancelled; }
+#else
+#define H_HANDLER ((void *)h_fn)
+#define H_IS_BLOCK 0
+#define H_CTXT_ARG ((void *)&H_ctxt)
+#endif
 #define LEEWAY0 (H_delta / 10)
 #define LEEWAY (LEEWAY0 < NSEC_PER_MSEC ? NSEC_PER_MSEC : LEEWAY0 > 60 * NSEC_PER_SEC ? 60 * NSEC_PER_SEC : LEEWAY0)
 VERIF_CONTRACT_VOID(_dispatch_after, (dispatch_time_t when, dispatch_queue_t dq, void *ctxt, void *handler, bool block),
-  REQ(dq == &H_q && ctxt == (void *)&H_ctxt && handler == (void *)h_fn && !block && __verif_n == 0 && H_creates == 0 && (when == T_FOREVER || T_VALUE(when) <= T_MAXV) && H_now[2] >= 1 && H_now[2] <= T_MAXV - 1)
+  REQ(dq == &H_q && ctxt == H_CTXT_ARG && handler == H_HANDLER && block == H_IS_BLOCK && __verif_n == 0 && H_creates == 0 && (when == T_FOREVER || T_VALUE(when) <= T_MAXV) && H_now[2] >= 1 && H_now[2] <= T_MAXV - 1)
   REQ(VIMPL(H_delta != 0, when != 0 && when != T_MONONOW))   /* contract of _dispatch_timeout: "now" is always due */
   ASG(VERIF_GHOST, __CPROVER_object_whole(&H_ds), __CPROVER_object_whole(&H_dt), __CPROVER_object_whole(&H_dc), H_creates, __CPROVER_object_whole(&H_at_activation))
   ENS(forever_schedules_nothing, VIMPL(when == T_FOREVER, __verif_n == 0 && H_creates == 0))
@@ -48,8 +66,15 @@ void harness(void)
 	H_now[0] = 1; H_now[1] = 1; H_now[2] = ND(uint64_t); __CPROVER_assume(H_now[2] >= 1 && H_now[2] <= T_MAXV - 1);
 	H_delta = ND(uint64_t); dispatch_time_t when = ND(dispatch_time_t); __CPROVER_assume(when == T_FOREVER || T_VALUE(when) <= T_MAXV); __CPROVER_assume(H_delta == 0 || (when != 0 && when != T_MONONOW));
 	H_dt.du_timer_flags = DISPATCH_TIMER_AFTER; H_dt.ds_handler[DS_EVENT_HANDLER] = 0;
-	_dispatch_after(when, &H_q, &H_ctxt, (void *)h_fn, 0);
-	VERIF_POST_VOID(_dispatch_after, when, &H_q, &H_ctxt, (void *)h_fn, 0);
+#ifdef H_BLOCK_VARIANT
+	H_blk_object = ND_BOOL(); H_blk_cancelled = ND_BOOL(); H_blk.invoke = H_blk_object ? (void (*)(void *, ...))_dispatch_block_special_invoke : (void (*)(void *, ...))h_fn;
+	H_dbpd.dbpd_magic = DISPATCH_BLOCK_PRIVATE_DATA_MAGIC; H_dbpd.dbpd_atomic_flags = H_blk_cancelled ? DBF_CANCELED : 0;
+#endif
+	_dispatch_after(when, &H_q, H_CTXT_ARG, H_HANDLER, H_IS_BLOCK);
+	VERIF_POST_VOID(_dispatch_after, when, &H_q, H_CTXT_ARG, H_HANDLER, H_IS_BLOCK);
+#ifdef H_BLOCK_VARIANT
+	VERIF_REACH(cancelled_block_object_scheduled, H_blk_object && H_blk_cancelled && H_creates == 1);
+#endif
 	VERIF_REACH(timer_with_clamped_leeway, H_creates == 1 && H_at_activation.deadline == H_at_activation.target + 60 * NSEC_PER_SEC);
 	VERIF_CANARY();
 }
